@@ -1,7 +1,7 @@
 import PysphVerif.Lemmas.PArrayStep
 import PysphVerif.Lemmas.PArrayParticles
 import PysphVerif.Lemmas.PArrayConsts
-import PysphVerif.Lemmas.PArraySpecOps
+import PysphVerif.Lemmas.PArraySpecOps7
 /-!
 # C06 — a particle array stays coherent under any sequence of operations
 
@@ -443,6 +443,25 @@ theorem removeTagged_particles {pa pa' : PA} (h : Inv pa) (t : Int)
     (particles pa').Perm ((particles pa).filter (fun r => !(lookupD r "tag" [] == [t]))) :=
   removeTagged_particles' h t hr
 
+/-- the definition of `specAppend a b` (self `a`, source `b`), spelled out -/
+theorem specAppend_def (a b : RA) :
+    specAppend a b = if b.recs.length = 0 then a else
+      ⟨a.dflt ++ missingFields a.dflt b.dflt,
+       a.recs.map (fun r => r ++ missingFields a.dflt b.dflt) ++
+       b.recs.map (fun r => (a.dflt ++ missingFields a.dflt b.dflt).map (fun f =>
+         if (recKeys b.dflt).contains f.1 then (f.1, lookupD r f.1 []) else f))⟩ := rfl
+
+/-- **`append_parray(src, align=False)`**: it never raises on coherent arrays
+whose common properties have equal strides, and afterwards the records are the
+old records (the fields self did not have filled with src's defaults) followed
+by src's records (the fields src does not have filled with self's defaults);
+the default record gains src's extra fields -/
+theorem appendParray_particles {pa src : PA} (h : Inv pa) (hs : Inv src) (up : Bool)
+    (hss : ∀ nm ∈ src.props.map Col.name, pa.strideOf nm = src.strideOf nm) :
+    ∃ pa', pa.appendParray src false up = some pa' ∧
+      absPA pa' = specAppend (absPA pa) (absPA src) :=
+  append_noalign_abs h hs up hss
+
 /-- slot 1 of `demoPA` (`x = 13`, `v = [10,11,12]`) extracted into a clone that
 only has `x`: `x` is copied, `tag/pid/gid` take the clone's defaults -/
 example : ((demoPA.emptyClone (some ["x"])).bind
@@ -463,12 +482,6 @@ function of every operation; it never looks at flat arrays, strides or
 reorder records while indices are positional, the refinement is stated per
 step, from the view of the actual state: `poolEquiv` = slot by slot the same
 default record and the same records up to a permutation. -/
-
-/-- the names `extract_particles` / `empty_clone` copy -/
-def specNames (props : Option (List String)) (a : RA) : List String :=
-  match props with
-  | some ps => ps
-  | none => recKeys a.dflt
 
 /-- **the record-list model**: one operation on a pool of record lists -/
 def specOp (A : List RA) : Op → List RA
@@ -512,8 +525,11 @@ def specOp (A : List RA) : Op → List RA
   | .new _ => A ++ [⟨baseDflt, []⟩]
 
 /-- "valid arguments" beyond `validOp`, as the harness generates them: index
-lists are duplicate-free and in range; `extract_particles` names properties
-both arrays have -/
+lists are duplicate-free and in range; `extract_particles` / `empty_clone` /
+`ensure_properties` name properties the source array has; `add_property` with
+data on a non-empty array brings one row per particle (and the property's own
+stride if it exists); the array can be un-pickled (in all other cases the
+Python code raises and nothing changes) -/
 def goodOp (st : State) : Op → Bool
   | .removeParticles s idx _ =>
     match st[s]? with
@@ -524,36 +540,38 @@ def goodOp (st : State) : Op → Bool
     | some pa, some dd => idx.all (fun i => decide (i < pa.n)) &&
         (cloneNames pa ps).all (fun nm => pa.hasProp nm && dd.hasProp nm)
     | _, _ => true
-  | .extract s idx _ _ =>
+  | .extract s idx _ ps =>
     match st[s]? with
-    | some pa => idx.all (fun i => decide (i < pa.n))
+    | some pa => idx.all (fun i => decide (i < pa.n)) && (cloneNames pa ps).all pa.hasProp
     | none => true
-  | _ => true
-
-/-- the operations whose refinement is proved below -/
-def coveredOp (st : State) : Op → Bool
-  | .addProperty _ _ _ _ _ _ => false
-  | .setProp s nm _ =>
+  | .emptyClone s ps =>
     match st[s]? with
-    | some pa => !pa.hasProp nm
+    | some pa => (cloneNames pa ps).all pa.hasProp
     | none => true
-  | .resize _ _ | .setTag _ _ _ | .removeProperty _ _ | .emptyClone _ _ | .extract _ _ _ _
-  | .append _ _ _ _ | .ensure _ _ _ => false
-  | .pickle s =>            -- un-pickling raises when a constant and a property share a name
+  | .ensure _ src ps =>
+    match st[src]? with
+    | some sp => (ensureNames sp ps).all sp.hasProp
+    | none => true
+  | .addProperty s name _ _ data stride =>
+    -- data for a non-empty array: one row per particle, an existing property with its own stride
+    match st[s]?, data with
+    | some pa, some d =>
+      d.length == 0 || pa.n == 0 ||
+        (if pa.hasProp name then stride == pa.strideOf name else d.length == pa.n * stride)
+    | _, _ => true
+  | .pickle s =>
+    -- un-pickling raises when a constant and a property share a name (`clashOps`)
     match st[s]? with
     | some pa => pa.pickle.isSome
     | none => true
   | _ => true
 
-/-- FULL STATEMENT (the part for `coveredOp` is proved as
-`refines_record_list_partial`): every valid operation on a pool of coherent
-arrays refines the record-list model. -/
-def refines_record_list : Prop :=
-  ∀ (st : State) (op : Op), (∀ pa ∈ st, Inv pa) → validOp st op = true → goodOp st op = true →
-    poolEquiv (absState (applyOp st op)) (specOp (absState st) op)
-
-theorem refines_record_list_partial (st : State) (op : Op) (hinv : ∀ pa ∈ st, Inv pa)
-    (hv : validOp st op = true) (hg : goodOp st op = true) (hc : coveredOp st op = true) :
+/-- **Headline (refinement).** Every valid operation on a pool of coherent
+arrays refines the record-list model: the record-list view of the new pool is,
+slot by slot, `specOp` of the view of the old pool — the same default records
+and the same records up to a permutation. -/
+theorem refines_record_list (st : State) (op : Op) (hinv : ∀ pa ∈ st, Inv pa)
+    (hv : validOp st op = true) (hg : goodOp st op = true) :
     poolEquiv (absState (applyOp st op)) (specOp (absState st) op) := by
   unfold applyOp
   rw [if_neg (by simp [hv])]
@@ -597,43 +615,96 @@ theorem refines_record_list_partial (st : State) (op : Op) (hinv : ∀ pa ∈ st
     have hi := hinv pa (mem_of_getElem?_some hs)
     simp only [hs]
     exact refines_set hs _ (RA.equiv_of_eq (extend_refines hi k))
-  | resize s m => simp [coveredOp] at hc
+  | resize s m =>
+    obtain ⟨pa, hs⟩ := some_of s (by simpa [validOp] using hv)
+    have hi := hinv pa (mem_of_getElem?_some hs)
+    simp only [hs]
+    exact refines_set hs _ (RA.equiv_of_eq (resize_refines hi m))
   | align s =>
     obtain ⟨pa, hs⟩ := some_of s (by simpa [validOp] using hv)
     have hi := hinv pa (mem_of_getElem?_some hs)
     simp only [hs]
     exact refines_set hs _ (RA.equiv_trans (absPA_align hi) (RA.equiv_trans (RA.equiv_refl _)
       ⟨(specAlign_equiv _).1.symm, (specAlign_equiv _).2.symm⟩))
-  | setTag s t idx => simp [coveredOp] at hc
-  | addProperty s nm ct df da sd => simp [coveredOp] at hc
-  | removeProperty s nm => simp [coveredOp] at hc
+  | setTag s t idx =>
+    obtain ⟨pa, hs⟩ := some_of s (by simpa [validOp] using hv)
+    have hi := hinv pa (mem_of_getElem?_some hs)
+    simp only [hs]
+    exact refines_set hs _ (RA.equiv_of_eq (setTag_refines hi t idx))
+  | addProperty s nm ct df da sd =>
+    cases hs : st[s]? with
+    | none => simp [validOp, hs] at hv
+    | some pa =>
+      have hi := hinv pa (mem_of_getElem?_some hs)
+      simp only [hs]
+      simp only [validOp, hs, Bool.and_eq_true, decide_eq_true_eq] at hv
+      obtain ⟨⟨⟨h1, h2⟩, _⟩, h4⟩ := hv
+      have hpres : nm ∈ pa.props.map Col.name → sd = 1 ∨ sd = pa.strideOf nm := by
+        intro hm
+        have hp := (hasProp_iff pa nm).mpr hm
+        simpa [hp] using h2
+      have nodata : poolEquiv (absState (setAt st s (pa.addProperty nm ct df none sd)))
+          (modifySlot (absState st) s (specAddProperty nm df none sd)) := by
+        obtain ⟨pa', hr, habs⟩ := addProperty_nodata_refines (ctype := ct) (dflt := df) hi h1 hpres
+        rw [hr]
+        exact refines_set hs _ (RA.equiv_of_eq habs)
+      cases da with
+      | none => exact nodata
+      | some d =>
+        by_cases hd : d.length = 0
+        · have : d = [] := List.length_eq_zero_iff.mp hd
+          subst this
+          rw [addProperty_some_nil]
+          exact nodata
+        · simp only [goodOp, hs, hd, beq_iff_eq, false_or, Bool.or_eq_true] at hg
+          simp only [hd, beq_iff_eq, Bool.and_eq_true, Bool.or_eq_true, or_false,
+            Bool.not_eq_eq_eq_not, Bool.not_true] at h4
+          obtain ⟨⟨h4a, h4b⟩, h4c⟩ := h4
+          have hpres' : nm ∈ pa.props.map Col.name → sd = pa.strideOf nm := by
+            intro hm
+            have hp := (hasProp_iff pa nm).mpr hm
+            by_cases hn0 : pa.n = 0
+            · simpa [hn0, hp] using h4c
+            · simpa [hn0, hp] using hg
+          have hdiv : d.length % sd = 0 := by
+            by_cases hp : pa.hasProp nm = true
+            · rw [hpres' ((hasProp_iff pa nm).mp hp)]; simpa [hp] using h4a
+            · simpa [hp] using h4a
+          have hlen : pa.n ≠ 0 → d.length = pa.n * sd := by
+            intro hn0
+            by_cases hp : pa.hasProp nm = true
+            · rw [hpres' ((hasProp_iff pa nm).mp hp)]
+              simpa [hn0, hp] using h4b
+            · simpa [hn0, hp] using hg
+          obtain ⟨pa', hr, habs⟩ := addProperty_data_refines (ctype := ct) (dflt := df) hi h1 hd
+            hpres' hdiv hlen
+          rw [hr]
+          exact refines_set hs _ (RA.equiv_of_eq habs)
+  | removeProperty s nm =>
+    have hn := validOp_removeProperty hv
+    obtain ⟨pa, hs⟩ := some_of s (by
+      simp only [validOp, Bool.and_eq_true] at hv; exact hv.1)
+    have hi := hinv pa (mem_of_getElem?_some hs)
+    simp only [hs]
+    exact refines_set hs _ (RA.equiv_of_eq (removeProperty_refines hi nm hn))
   | addConstant s nm d =>
     obtain ⟨pa, hs⟩ := some_of s (by simpa [validOp] using hv)
     simp only [hs]
     exact refines_setAt_same hs _ (fun pa' hr => addConstant_abs hr)
   | setProp s nm d =>
     obtain ⟨pa, hs⟩ := some_of s (by simpa [validOp] using hv)
-    have hnp : pa.hasProp nm = false := by simpa [coveredOp, hs] using hc
+    have hi := hinv pa (mem_of_getElem?_some hs)
     simp only [hs]
-    have hspec : specOp (absState st) (.setProp s nm d) = absState st := by
-      show modifySlot (absState st) s (specSetProp nm d) = _
-      unfold modifySlot
-      rw [absState_getElem?, hs]
-      simp only [Option.map_some]
-      have : specSetProp nm d (absPA pa) = absPA pa := by
-        unfold specSetProp
-        rw [if_neg]
-        show ¬ (recKeys (defaultParticle pa)).contains nm = true
-        rw [defaultParticle_keys']
-        have := (hasProp_false_iff pa nm).mp hnp
-        simpa using this
-      rw [this]
-      unfold absState
-      rw [← List.map_set]
-      obtain ⟨hlt, he⟩ := List.getElem?_eq_some_iff.mp hs
-      rw [← he, List.set_getElem_self]
-    rw [hspec]
-    exact refines_setAt_same hs _ (fun pa' hr => setProp_const_abs hnp hr)
+    cases hcol : pa.col? nm with
+    | some c =>
+      obtain ⟨e1, e2⟩ := setProp_refines hi nm d c hcol
+      exact refines_setAt_opt hs _ _ (fun pa' hr => RA.equiv_of_eq (e1 pa' hr)) e2
+    | none =>
+      have hnp : pa.hasProp nm = false := (hasProp_false_iff pa nm).mpr (col?_none pa nm hcol)
+      exact refines_setAt_opt hs _ _
+        (fun pa' hr => RA.equiv_of_eq ((setProp_const_abs hnp hr).trans
+          (specSetProp_not_prop pa nm d hnp).symm))
+        (fun _ => specSetProp_not_prop pa nm d hnp)
   | setOutputs s ps =>
     obtain ⟨pa, hs⟩ := some_of s (by simpa [validOp] using hv)
     simp only [hs]
@@ -642,8 +713,39 @@ theorem refines_record_list_partial (st : State) (op : Op) (hinv : ∀ pa ∈ st
     obtain ⟨pa, hs⟩ := some_of s (by simpa [validOp] using hv)
     simp only [hs]
     exact refines_setAt_same hs _ (fun pa' hr => addOutputs_abs hr)
-  | emptyClone s ps => simp [coveredOp] at hc
-  | extract s idx al ps => simp [coveredOp] at hc
+  | emptyClone s ps =>
+    obtain ⟨pa, hs⟩ := some_of s (by simpa [validOp] using hv)
+    have hi := hinv pa (mem_of_getElem?_some hs)
+    simp only [goodOp, hs, List.all_eq_true] at hg
+    obtain ⟨d, hd, _, _, habs, _⟩ := emptyClone_spec hi ps
+      (fun nm hnm => (hasProp_iff pa nm).mp (hg nm hnm))
+    simp only [hs]
+    rw [hd]
+    show poolEquiv (absState (st ++ [d])) (match (absState st)[s]? with
+      | some a => absState st ++ [specEmptyClone ps a]
+      | none => absState st)
+    rw [absState_getElem?, hs]
+    simp only [Option.map_some]
+    unfold absState
+    rw [List.map_append]
+    exact poolEquiv_push (poolEquiv_refl _) _ _ (RA.equiv_of_eq habs)
+  | extract s idx al ps =>
+    obtain ⟨pa, hs⟩ := some_of s (by simpa [validOp] using hv)
+    have hi := hinv pa (mem_of_getElem?_some hs)
+    simp only [goodOp, hs, Bool.and_eq_true, decide_eq_true_eq, List.all_eq_true] at hg
+    obtain ⟨pa', hr, heq⟩ := extract_refines hi idx al ps
+      (fun nm hnm => (hasProp_iff pa nm).mp (hg.2 nm hnm)) hg.1
+    simp only [hs]
+    rw [hr]
+    show poolEquiv (absState (st ++ [pa'])) (match (absState st)[s]? with
+      | some a => absState st ++ [specExtractInto (specNames ps a) idx a (specEmptyClone ps a)]
+      | none => absState st)
+    rw [absState_getElem?, hs]
+    simp only [Option.map_some]
+    rw [cloneNames_abs]
+    unfold absState
+    rw [List.map_append]
+    exact poolEquiv_push (poolEquiv_refl _) _ _ heq
   | extractInto s d idx al ps =>
     cases hs : st[s]? with
     | none => simp [validOp, hs] at hv
@@ -675,8 +777,47 @@ theorem refines_record_list_partial (st : State) (op : Op) (hinv : ∀ pa ∈ st
           | some l => rfl
         rw [hn]
         exact this
-  | append s src al up => simp [coveredOp] at hc
-  | ensure s src ps => simp [coveredOp] at hc
+  | append s src al up =>
+    cases hs : st[s]? with
+    | none => simp [validOp, hs] at hv
+    | some pa =>
+      cases hd : st[src]? with
+      | none => simp [validOp, hs, hd] at hv
+      | some sp =>
+        have hi := hinv pa (mem_of_getElem?_some hs)
+        have hisp := hinv sp (mem_of_getElem?_some hd)
+        simp only [validOp, hs, hd, Bool.and_eq_true] at hv
+        have hss := (sameStrides_iff pa sp _).mp hv.1.2
+        obtain ⟨pa', hr, heq⟩ := append_refines hi hisp al up hss
+        simp only [hs, hd]
+        rw [hr]
+        show poolEquiv (absState (st.set s pa')) (match (absState st)[s]?, (absState st)[src]? with
+          | some a, some b => (absState st).set s (specAppend a b)
+          | _, _ => absState st)
+        rw [absState_getElem?, absState_getElem?, hs, hd]
+        simp only [Option.map_some]
+        unfold absState
+        rw [List.map_set]
+        exact poolEquiv_set (poolEquiv_refl _) s _ _ heq
+  | ensure s src ps =>
+    simp only [validOp, Bool.and_eq_true] at hv
+    obtain ⟨pa, hs⟩ := some_of s hv.1
+    obtain ⟨sp, hd⟩ := some_of src hv.2
+    have hi := hinv pa (mem_of_getElem?_some hs)
+    have hisp := hinv sp (mem_of_getElem?_some hd)
+    simp only [goodOp, hd, List.all_eq_true] at hg
+    obtain ⟨pa', hr, heq⟩ := ensure_refines hi hisp ps
+      (fun nm hnm => (hasProp_iff sp nm).mp (hg nm hnm))
+    simp only [hs, hd]
+    rw [hr]
+    show poolEquiv (absState (st.set s pa')) (match (absState st)[s]?, (absState st)[src]? with
+      | some a, some b => (absState st).set s (specEnsure ps a b)
+      | _, _ => absState st)
+    rw [absState_getElem?, absState_getElem?, hs, hd]
+    simp only [Option.map_some]
+    unfold absState
+    rw [List.map_set]
+    exact poolEquiv_set (poolEquiv_refl _) s _ _ (RA.equiv_of_eq heq)
   | pickle s =>
     obtain ⟨pa, hs⟩ := some_of s (by simpa [validOp] using hv)
     have hi := hinv pa (mem_of_getElem?_some hs)
@@ -687,7 +828,7 @@ theorem refines_record_list_partial (st : State) (op : Op) (hinv : ∀ pa ∈ st
     rw [absState_getElem?, hs]
     simp only [Option.map_some]
     cases hp : pa.pickle with
-    | none => simp [coveredOp, hs, hp] at hc
+    | none => simp [goodOp, hs, hp] at hg
     | some pa' =>
       exact refines_push (some pa') _ ⟨pa', rfl⟩
         (fun q hq => by cases hq; exact RA.equiv_of_eq (pickle_abs hi hp))
@@ -701,21 +842,19 @@ theorem refines_record_list_partial (st : State) (op : Op) (hinv : ∀ pa ∈ st
 the real operation refines the record-list model applied to the view of the
 state it starts from (coherence of that state is `inv_reachable`) -/
 theorem refines_record_list_run (ops : List Op) (op : Op)
-    (hv : validOp (run ops) op = true) (hg : goodOp (run ops) op = true)
-    (hc : coveredOp (run ops) op = true) :
+    (hv : validOp (run ops) op = true) (hg : goodOp (run ops) op = true) :
     poolEquiv (absState (run (ops ++ [op]))) (specOp (absState (run ops)) op) := by
   have : run (ops ++ [op]) = applyOp (run ops) op := by
     unfold run; rw [List.foldl_append]; rfl
   rw [this]
-  exact refines_record_list_partial _ _ (inv_run ops) hv hg hc
+  exact refines_record_list _ _ (inv_run ops) hv hg
 
 /-! ### non-vacuity for H: the demo array, record-list model against the real operation -/
 
-/-- removing slots 2 and 0 then aligning is valid, good and covered; the model
-deletes records 0 and 2 in place, the real array holds the same two records -/
+/-- removing slots 2 and 0 then aligning is valid and good; the model deletes
+records 0 and 2 in place, the real array holds the same two records -/
 example : validOp (run (demoOps.take 5)) (.removeParticles 0 [2, 0] true) = true ∧
-    goodOp (run (demoOps.take 5)) (.removeParticles 0 [2, 0] true) = true ∧
-    coveredOp (run (demoOps.take 5)) (.removeParticles 0 [2, 0] true) = true := by decide
+    goodOp (run (demoOps.take 5)) (.removeParticles 0 [2, 0] true) = true := by decide
 example : (specOp (absState (run (demoOps.take 5))) (.removeParticles 0 [2, 0] true)).map RA.recs =
     [[[("tag", [0]), ("pid", [0]), ("gid", [4294967295]), ("x", [13]), ("v", [10, 11, 12])],
       [("tag", [2]), ("pid", [0]), ("gid", [4294967295]), ("x", [10]), ("v", [1, 2, 3])]]] := by
@@ -731,5 +870,37 @@ example : ((specOp (absState (run (demoOps.take 5)))
     [[[("tag", [1]), ("pid", [0]), ("gid", [4294967295]), ("x", [0]), ("v", [21, 22, 23])],
       [("tag", [0]), ("pid", [0]), ("gid", [4294967295]), ("x", [0]), ("v", [24, 25, 26])]]] := by
   decide
+
+/-- the model's `append_parray`, `extract_particles` and `add_property` with data
+on the view of the demo pool, next to the view of what the real operations leave -/
+def demoOps2 : List Op :=
+  demoOps.take 5 ++ [.new "b", .addProperty 1 "q" "double" (some 3) none 1,
+    .addParticles 1 true [("q", [8, 9])]]
+
+example : (demoOps2.foldl (fun (p : State × Bool) op => (applyOp p.1 op, p.2 && validOp p.1 op))
+    ([], true)).2 = true := by decide
+example : validOp (run demoOps2) (.append 0 1 false false) = true ∧
+    goodOp (run demoOps2) (.append 0 1 false false) = true ∧
+    absState (applyOp (run demoOps2) (.append 0 1 false false)) =
+      specOp (absState (run demoOps2)) (.append 0 1 false false) := by decide
+example : ((specOp (absState (run demoOps2)) (.append 0 1 false false))[0]?).map
+      (fun a => (a.dflt, a.recs.drop 3)) =
+    some ([("tag", [0]), ("pid", [0]), ("gid", [4294967295]), ("x", [0]), ("v", [7, 7, 7]), ("q", [3])],
+      [[("tag", [2]), ("pid", [0]), ("gid", [4294967295]), ("x", [10]), ("v", [1, 2, 3]), ("q", [3])],
+       [("tag", [0]), ("pid", [0]), ("gid", [4294967295]), ("x", [0]), ("v", [7, 7, 7]), ("q", [8])],
+       [("tag", [0]), ("pid", [0]), ("gid", [4294967295]), ("x", [0]), ("v", [7, 7, 7]), ("q", [9])]]) := by
+  decide
+example : validOp (run demoOps2) (.extract 0 [3, 1] false (some ["v", "tag"])) = true ∧
+    goodOp (run demoOps2) (.extract 0 [3, 1] false (some ["v", "tag"])) = true ∧
+    absState (applyOp (run demoOps2) (.extract 0 [3, 1] false (some ["v", "tag"]))) =
+      specOp (absState (run demoOps2)) (.extract 0 [3, 1] false (some ["v", "tag"])) := by decide
+example : validOp (run demoOps2) (.addProperty 0 "v" "double" none
+      (some [1, 1, 1, 2, 2, 2, 3, 3, 3, 4, 4, 4]) 3) = true ∧
+    goodOp (run demoOps2) (.addProperty 0 "v" "double" none
+      (some [1, 1, 1, 2, 2, 2, 3, 3, 3, 4, 4, 4]) 3) = true ∧
+    absState (applyOp (run demoOps2) (.addProperty 0 "v" "double" none
+      (some [1, 1, 1, 2, 2, 2, 3, 3, 3, 4, 4, 4]) 3)) =
+      specOp (absState (run demoOps2)) (.addProperty 0 "v" "double" none
+        (some [1, 1, 1, 2, 2, 2, 3, 3, 3, 4, 4, 4]) 3) := by decide
 
 end PysphVerif.C06
